@@ -40,7 +40,11 @@ impl Monitor for C01 {
         let mut add = |d: Denom, v: u128| *issued.entry(d).or_insert_with(BigUint::zero) += BigUint::from(v);
         for tx in ob.txs.iter() {
             let h = tx.hash_nosigs();
-            if tx.kind == TxKind::Faucet {
+            if tx.kind == TxKind::Faucet && ob.pre.net == melstructs::NetID::Mainnet && h != crate::plan::grandfathered_faucet().hash_nosigs() {
+                // a faucet is an issuance rule off mainnet only (the one historical transaction excepted): whatever an
+                // accepted mainnet faucet creates is value from nothing
+                self.accepted_nonfaucet += 1;
+            } else if tx.kind == TxKind::Faucet {
                 for o in tx.outputs.iter() {
                     let d = if o.denom == Denom::NewCustom { Denom::Custom(h) } else { o.denom };
                     add(d, o.value.0);
@@ -182,6 +186,7 @@ pub fn profile() -> Profile {
     p.p_teleport = 1;
     p.kind_w[7] = 4;
     p.low_dosc_start = true;
+    p.grandfathered_faucet = true;
     p
 }
 
